@@ -91,6 +91,79 @@ def _add(a, b):
 
 
 # ---------------------------------------------------------------------------
+# factored denominators: keep common denominators small (lcm, not product)
+# ---------------------------------------------------------------------------
+
+def _numeral(t):
+    if z3.is_int_value(t):
+        return Fraction(t.as_long())
+    if z3.is_rational_value(t):
+        return Fraction(t.numerator_as_long(), t.denominator_as_long())
+    return None
+
+
+def _factors(t, coeff_out, out):
+    """Flatten a product into {id: [term, multiplicity]}; numerals go to coeff_out[0]."""
+    c = _numeral(t)
+    if c is not None:
+        coeff_out[0] *= c
+        return
+    if z3.is_app(t) and t.decl().kind() == z3.Z3_OP_MUL:
+        for ch in t.children():
+            _factors(ch, coeff_out, out)
+        return
+    e = out.setdefault(t.get_id(), [t, 0])
+    e[1] += 1
+
+
+def _prod(fs, coeff=Fraction(1)):
+    r = ONE if coeff == 1 else rv(coeff)
+    for term, k in fs:
+        for _ in range(k):
+            r = _mul(r, term)
+    return r
+
+
+def lcm_den(d1, d2):
+    """(L, m1, m2) with L = lcm(d1, d2) as products of syntactic factors, L = d1*m1 = d2*m2."""
+    if _same(d1, d2):
+        return d1, ONE, ONE
+    if _is_one(d1):
+        return d2, d2, ONE
+    if _is_one(d2):
+        return d1, ONE, d1
+    c1, c2 = [Fraction(1)], [Fraction(1)]
+    f1, f2 = {}, {}
+    _factors(d1, c1, f1)
+    _factors(d2, c2, f2)
+    m1, m2 = [], []
+    for k, (t, n2) in f2.items():
+        n1 = f1.get(k, (None, 0))[1]
+        if n2 > n1:
+            m1.append((t, n2 - n1))
+    for k, (t, n1) in f1.items():
+        n2 = f2.get(k, (None, 0))[1]
+        if n1 > n2:
+            m2.append((t, n1 - n2))
+    # numeric coefficients: use c1*c2 as common multiple (both positive by construction)
+    M1 = _prod(m1, abs(c2[0]) if c1[0] != c2[0] else Fraction(1))
+    M2 = _prod(m2, abs(c1[0]) if c1[0] != c2[0] else Fraction(1))
+    return _mul(d1, M1), M1, M2
+
+
+def frac_add(n1, d1, n2, d2, sub=False):
+    L, m1, m2 = lcm_den(d1, d2)
+    a, b = _mul(n1, m1), _mul(n2, m2)
+    return (a - b if sub else a + b), L
+
+
+def frac_sides(n1, d1, n2, d2):
+    """(lhs, rhs) with n1/d1 ~ n2/d2  <=>  lhs ~ rhs  (denominators positive)."""
+    L, m1, m2 = lcm_den(d1, d2)
+    return _mul(n1, m1), _mul(n2, m2)
+
+
+# ---------------------------------------------------------------------------
 # EXP: syntactic exponential of a plain z3 term
 # ---------------------------------------------------------------------------
 
@@ -595,7 +668,9 @@ class Sym:
         if not _ctx().domain(self.real() >= 0, "log of a negative number"):
             return math.nan
         N, D = ratfun(self.real())
+        N = z3.simplify(N)
         if not _is_one(D):
+            D = z3.simplify(D)
             c = _ctx()
             if c.valid(D > 0):
                 pass
@@ -672,8 +747,7 @@ class Sym:
             P, Q = EXP_pair(diff) if not _is_zero(diff) else (ONE, ONE)
             n1, d1 = (self.num, self.den) if self.num is not None else (ONE, ONE)
             n2, d2 = (o.num, o.den) if o.num is not None else (ONE, ONE)
-            a = _mul(_mul(P, n1), d2)
-            b = _mul(_mul(Q, n2), d1)
+            a, b = frac_sides(_mul(P, n1), d1, _mul(Q, n2), d2)
         if op == "lt":
             return SymBool(a < b)
         if op == "le":
@@ -823,10 +897,10 @@ def _cmp_special(s, f, op):
 def ratfun(t, _cache=None):
     t = _to_real(t)
     if _cache is None:
-        _cache = {}
+        _cache = _ctx().aux.setdefault("_ratfun", {})
     key = t.get_id()
     if key in _cache:
-        return _cache[key]
+        return _cache[key][:2]
     res = None
     if z3.is_app(t) and t.num_args() > 0:
         k = t.decl().kind()
@@ -838,16 +912,7 @@ def ratfun(t, _cache=None):
             else:
                 N, D = parts[0]
                 for (n2, d2) in parts[1:]:
-                    if k == z3.Z3_OP_ADD:
-                        if _same(D, d2):
-                            N = N + n2
-                        else:
-                            N, D = _mul(N, d2) + _mul(n2, D), _mul(D, d2)
-                    else:
-                        if _same(D, d2):
-                            N = N - n2
-                        else:
-                            N, D = _mul(N, d2) - _mul(n2, D), _mul(D, d2)
+                    N, D = frac_add(N, D, n2, d2, sub=(k != z3.Z3_OP_ADD))
                 res = (N, D)
         elif k == z3.Z3_OP_UMINUS:
             n, d = ratfun(ch[0], _cache)
@@ -866,5 +931,5 @@ def ratfun(t, _cache=None):
             res = (_mul(n1, d2), _mul(d1, n2))
     if res is None:
         res = (t, ONE)
-    _cache[key] = res
+    _cache[key] = (res[0], res[1], t)  # keep t alive: z3 reuses AST ids of collected terms
     return res
